@@ -64,7 +64,8 @@ Record cfg := mkCfg {
   group_agg_kind : option opk;
   col_disp_ident : bool;           (* col('x') remembers the identifier's text (case kept, back-ticks stripped) *)
   alias_disp_raw : bool;           (* Column.alias(n) remembers n as given *)
-  str_disp_raw : bool;             (* a str argument of select is recorded as given *)
+  str_disp_raw : bool;             (* a str argument of select is recorded as given (else: its identifier text) *)
+  join_merges : bool;              (* join adds the right frame's display names (for names that are not left columns) *)
   v_columns_map : bool;            (* df.columns renames the select list through the map *)
   v_sql_map : bool;                (* the SQL of collect()/toPandas() carries the display names as case-sensitive aliases *)
   v_schema_map : bool;             (* df.schema looks reported names up in the map *)
@@ -155,6 +156,7 @@ Section Model.
     | SAlias _ al => if alias_disp_raw c then al else attr al
     end.
   Definition arg_rec (a : selarg) : name * name := (qp (arg_item a), arg_disp a).
+  Definition arg_ref' (a : selarg) : name := match a with SStr x | SCol x | SItem x => x | SAlias _ al => al end.
   Definition alias_rec (a : name) : name * name := (qp (ident a), if alias_disp_raw c then a else attr a).
 
   (** the columns [_get_outer_select_columns] returns: (identifier, display name remembered by col()) *)
@@ -183,6 +185,13 @@ Section Model.
     end.
 
   Definition alower_name (n : name) : name := map alower n.
+
+  (** display names a join takes over from the right frame (a fresh createDataFrame(rnames)) *)
+  Definition join_dmap (d : df) (lcols : list item) (rnames : list name) : dmap_t :=
+    if join_merges c then
+      upd_all (filter (fun kv => negb (mem (fst kv) (map qp lcols)))
+                      (map (fun n => (qp (ident n), if str_disp_raw c then n else attr n)) rnames)) (dmap d)
+    else dmap d.
 
   (** does DuckDB bind an ORDER BY key written into the open SELECT?  an input column of the FROM (names compared after
       normalisation) or an output alias (DuckDB folds ASCII case only) *)
@@ -216,8 +225,12 @@ Section Model.
           Some (fst r, set_sel (snd r) sel')
         else None
     | OToDF ns =>
-        if Nat.eqb (List.length ns) (List.length (sel d))
-        then Some (d, set_sel d (map (fun n => mkItem n (qsafe wordu n)) ns))
+        if Nat.eqb (List.length ns) (List.length (sel d)) then
+          match rec_of c MToDF with
+          | RNone => Some (d, set_sel d (map (fun n => mkItem n (qsafe wordu n)) ns))   (* raw aliases, nothing recorded *)
+          | rk => let r := record rk (map alias_rec ns) d in                             (* Column.alias + recorded *)
+                  Some (fst r, set_sel (snd r) (map ident ns))
+          end
         else None
     | ODrop vs =>
         let dk := map (fun v => qp (ident v)) vs in
@@ -244,7 +257,12 @@ Section Model.
         (* a key written df[x] was bound to the CTE open when groupBy ran; if agg's own wrapper freezes once more, the
            qualified key points at a table that is no longer in the FROM: the engine raises *)
         if snd p && existsb (fun a => match a with SItem _ => true | _ => false end) keys then None
-        else Some (d, set_last (set_sel g (map arg_item keys ++ map ident aliases)) (snd (fst p)))
+        else
+          (* keys are Columns by then: what is recorded for them is col()'s display name *)
+          let kvs := map (fun a => (qp (arg_item a), if col_disp_ident c then attr (arg_ref' a) else arg_ref' a)) keys
+                     ++ map alias_rec aliases in
+          let r := record (rec_of c MGroupAgg) kvs g in
+          Some (d, set_last (set_sel (snd r) (map arg_item keys ++ map ident aliases)) (snd (fst p)))
     | OAgg aliases =>
         let r := record (rec_of c MAgg) (map alias_rec aliases) d in
         Some (fst r, set_sel (snd r) (map ident aliases))
@@ -254,7 +272,7 @@ Section Model.
         let kn := map (fun k => qp (ident k)) keys in
         if forallb (fun k => mem k (base d)) kn then
           let names := kn ++ filter (fun n => negb (mem n kn)) (map qp (lcols ++ rcols)) in
-          Some (d, mkDf (map ident names) (dmap d) (last d) (base d ++ map text rcols) true)
+          Some (d, mkDf (map ident names) (join_dmap d lcols rnames) (last d) (base d ++ map text rcols) true)
         else None
     | ODropDuplicates _ => None      (* composite: see [step] *)
     | OWhere _ | OLimit | ODistinct => Some (d, d)
@@ -268,7 +286,7 @@ Section Model.
     | OJoinOn rnames _ _ =>
         let lcols := map renorm (sel d) in
         let rcols := map ident rnames in
-        Some (d, mkDf (map ident (map qp (lcols ++ rcols))) (dmap d) (last d) (base d ++ map text rcols) true)
+        Some (d, mkDf (map ident (map qp (lcols ++ rcols))) (join_dmap d lcols rnames) (last d) (base d ++ map text rcols) true)
     end.
 
   (** one call on a frame: (the receiver as the user sees it afterwards, the result) *)
